@@ -250,7 +250,7 @@ package httpserver
 //@   loop 3 invariant idxOffset > 0 ==> s[idxStart + idxOffset - 1] == '}'
 //@   loop 3 decreases len(s) - idxStart - idxOffset
 
-//@ unit plaintext_redirects frames=on props=C15 filter=`httpserver\.makePlaintextRedirects$|hostHasOtherPort$`
+//@ unit plaintext_redirects frames=on props=C15,C01 filter=`httpserver\.makePlaintextRedirects$|hostHasOtherPort$`
 //@ extern strconv.Itoa
 //@   pure
 
